@@ -239,4 +239,77 @@ theorem traverseByOffsetRec_spec {n : Node α} (asc : Bool) (f : σ → Node α 
         o m (by simp only [order_length]; omega) hm s
 
 end Node
+
+namespace Tree
+variable {α σ : Type}
+
+theorem byOffset_aux (t : Tree α) (hw : t.WF) (asc : Bool) (offset count : Int)
+    (cb : σ → Key → Option α → σ × Bool) (s : σ) :
+    t.nodeTraverseByOffset offset count asc true (Tree.wrapCb cb) s =
+      ((runCb (fun s k v => cb s k (some v)) s (window t.toList offset count asc)).1,
+       (runCb (fun s k v => cb s k (some v)) s (window t.toList offset count asc)).2 ||
+         decide (0 < count ∧ max offset 0 + count < t.toList.length)) := by
+  obtain ⟨node⟩ := t
+  cases node with
+  | none =>
+    have hd : ¬ (0 < count ∧ max offset 0 + count < ((0 : Nat) : Int)) := by omega
+    simp only [Tree.nodeTraverseByOffset, Tree.toList, window, runCb, List.drop_nil, List.take_nil,
+      List.reverse_nil, ite_self, List.length_nil, Bool.false_or]
+    refine Prod.ext rfl ?_
+    exact (decide_eq_false hd).symm
+  | some n =>
+    have hlen := Node.size_eq_length hw.1
+    have hpos := Node.toList_length_pos n
+    have hwin : ∀ (o m : Nat), window n.toList (o : Int) (m : Int) asc = ((Node.order asc n.toList).drop o).take m := by
+      intro o m; cases asc <;> simp [window, Node.order]
+    simp only [Tree.nodeTraverseByOffset, Tree.toList]
+    by_cases hfast : count ≤ 0 ∨ (if offset < 0 then 0 else offset) ≥ n.size
+    · rw [if_pos hfast]
+      rcases hfast with hc | ho
+      · have : count.toNat = 0 := by omega
+        have hd : ¬ (0 < count ∧ max offset 0 + count < (n.toList.length : Int)) := by omega
+        simp [window, this, runCb, hd]
+      · have : n.toList.length ≤ offset.toNat := by split at ho <;> omega
+        have hd : ¬ (0 < count ∧ max offset 0 + count < (n.toList.length : Int)) := by
+          split at ho <;> omega
+        have hdrop : ∀ (L : List (Key × α)), L.length = n.toList.length → L.drop offset.toNat = [] :=
+          fun L hL => List.drop_of_length_le (by omega)
+        cases asc <;> simp [window, hdrop, runCb, hd]
+    · rw [if_neg hfast]
+      -- offset clamped, 0 ≤ o < size, 0 < count
+      obtain ⟨o, ho⟩ : ∃ o : Nat, (if offset < 0 then 0 else offset) = (o : Int) :=
+        ⟨(if offset < 0 then 0 else offset).toNat, by split <;> omega⟩
+      obtain ⟨m, hm⟩ : ∃ m : Nat, count = (m : Int) := ⟨count.toNat, by omega⟩
+      have hoff : offset.toNat = o := by split at ho <;> omega
+      have hmo : max offset 0 = (o : Int) := by split at ho <;> omega
+      have ho' : o < n.toList.length := by omega
+      have hm' : 0 < m := by omega
+      have hwin' : window n.toList offset count asc = ((Node.order asc n.toList).drop o).take m := by
+        rw [← hwin o m]; simp only [window, hoff, hm, Int.toNat_natCast]
+      rw [ho, hwin', hmo]
+      cases hleaf : n.isLeaf with
+      | true =>
+        obtain ⟨k, v, rfl, hord⟩ := Node.isLeaf_toList hleaf asc
+        simp only [Node.toList_leaf, List.length_singleton] at ho' hord ⊢
+        have : o = 0 := by omega
+        subst this
+        have h0 : ¬ (((0 : Nat) : Int) > 0) := by omega
+        have ht : ([(k, v)] : List (Key × α)).take m = [(k, v)] := List.take_of_length_le (by simp; omega)
+        have hd : ¬ (0 < count ∧ ((0 : Nat) : Int) + count < ((1 : Nat) : Int)) := by omega
+        simp only [if_true, h0, if_false, hord, List.drop_zero, ht, runCb, Tree.wrapCb, Node.key, Node.value?]
+        split <;> simp_all
+      | false =>
+        simp only [Bool.false_eq_true, if_false]
+        rw [hm, Node.traverseByOffsetRec_spec asc _ hw.1 hleaf o m ho' hm' s]
+        simp only [Node.winSpec, Node.winRun, Node.order_length]
+        have : (Node.leafCb (Tree.wrapCb cb) : σ → Key → α → σ × Bool) = fun s k v => cb s k (some v) := rfl
+        rw [this]
+        have hdec : decide (o + m < n.toList.length) =
+            decide (0 < (m : Int) ∧ (o : Int) + (m : Int) < (n.toList.length : Int)) := by
+          rw [decide_eq_decide]; omega
+        rw [hdec]
+        refine Prod.ext rfl ?_
+        congr
+
+end Tree
 end GnoVerif.C50
